@@ -92,9 +92,21 @@ def _run(v, tier, seed):
     quick = (tier == "quick")
     scale = float(os.environ.get("C12_SCALE", "1"))     # < 1: a reduced thorough run (smoke test of the tier)
     os.makedirs(TLC_ENV["JAVA_TOOL_OPTIONS"].split("=", 1)[1], exist_ok=True)
-    vlib.make("plain", "tun")
-    vlib.make("asan", "tun")
-    tun = vlib.binpath("plain", "tun"); tun_asan = vlib.binpath("asan", "tun")
+    # harness/tun.cpp also reads the gateways' private state (DRIFT-level comparisons).  If it does not compile against the tree under
+    # test (a refactoring of private members), fall back to harness/tun_public.cpp = the same program on the public API only: the
+    # property-level judging (TunAbs monitor on every delivery, exactly-once at quiet ends, trace validation) is unchanged.
+    def build(variant):
+        try:
+            vlib.make(variant, "tun"); return vlib.binpath(variant, "tun"), True
+        except vlib.MachineryError as ex1:
+            try: vlib.make(variant, "tun_public")
+            except vlib.MachineryError as ex2: raise vlib.MachineryError("neither harness/tun.cpp nor its public-API variant builds:\n%s\n%s" % (str(ex1)[-1500:], str(ex2)[-1500:]))
+            err = [l for l in str(ex1).splitlines() if "error" in l]
+            vlib.log("NOTE property=C12 harness/tun.cpp does not compile against this tree (%s): using the public-API build; private-state comparison (send cursor, ReceiveState) and id wrap-around cases are unavailable, property-level judging is complete" % (err[0].strip()[:220] if err else "see build log"))
+            return vlib.binpath(variant, "tun_public"), False
+    tun, priv1 = build("plain")
+    tun_asan, priv2 = build("asan")
+    private_state = priv1 and priv2
     W = lambda n: vlib.scratch("C12", n)
     tok = Tokens(8)
     tot = {"states": 0, "transitions": 0, "mc_runs": 0, "reach": 0, "gen_states": 0, "gen_edges": 0, "behaviours": 0, "replays": 0, "followed": 0, "drifted": 0,
@@ -469,7 +481,7 @@ def _run(v, tier, seed):
     for i in infos: vlib.log("INFO property=C12 %s: %s" % (i["case"], i["note"]))
     cov = {"states": tot["states"], "transitions": tot["transitions"],
            "traces_validated_against_impl": tot["followed"] + ex_tot["traces_written"],
-           "model_check_runs": tot["mc_runs"], "reach_configs": tot["reach"], "corrupted_inputs_rejected": n_selftests,
+           "private_state_compared": private_state, "model_check_runs": tot["mc_runs"], "reach_configs": tot["reach"], "corrupted_inputs_rejected": n_selftests,
            "generation_graph_states": tot["gen_states"], "generation_graph_transitions": tot["gen_edges"],
            "behaviours_generated": tot["behaviours"], "behaviour_replays": tot["replays"], "replays_followed_to_the_end": tot["followed"], "replays_drifted": tot["drifted"],
            "replay_steps": tot["steps"], "replay_packets": tot["packets"], "replay_deliveries_checked": tot["deliveries"], "replay_clause2_judged": tot["clause2"], "replay_packets_shared_and_split_perfect_net": tot["split_perfect"], "replay_packets_shared_and_split_faulty_net": tot["split_faulty"],
